@@ -997,3 +997,7 @@ def r4e(cx):
         cx.violation(root, 'joined-word-bracket-pair', 'name and value are each quoted on their own and written as `name=value`: with the alias '
                      '`a[` = `b]` neither part needs quoting, the listing prints `a[=b]`, and `alias a[=b]` read back in a directory that '
                      'contains a file `ab` is expanded to `alias ab` - the listing does not recreate the alias', loc='%s:%s' % (h['file'], h['line']))
+
+
+# --- explanation addendum (generated catalogue in DESIGN.md reads RS.explanation)
+RS.explanation += ' Added later: the `--` separator test of both typeset listings covers every option prefix of the typeset parser (R4c); the function listing must know the reserved words (R4d, open finding); the alias listing must quote the joined word (R4e).'
